@@ -113,6 +113,7 @@ def run(prog, R):
     s2s = R.anchor(prog, S2S + "stmt_to_asg_stmt")
     if s2s:
         ps, _ = paths(prog, s2s.npath)
+        def_rows = []
         seen = set()
         for p in ps:
             if arm_of(prog, p, STMT_ENUM, "stmt") == "Gate" and "__diverged__" not in p.env:
@@ -137,18 +138,23 @@ def run(prog, R):
             if arm_of(prog, p, STMT_ENUM, "stmt") == "Def" and "__diverged__" not in p.env:
                 nb = [c for c in p.calls if c[0].endswith("Context::new_binding")]
                 ty = deep_strip(nb[-1][1][2]) if nb else None
-                if ty is not None and ("Def",) not in seen:
-                    seen.add(("Def",))
+                if ty is not None and show(ty) not in seen:
+                    seen.add(show(ty))
                     s_ = show(ty)
-                    ok = ty[0] == "adt" and ty[1] == T + "Type::SubroutineDef" and "typed_param_list" in s_ and ("return_signature" in s_ or "Type::Void" in s_)
-                    if ok:
-                        sd = deep_strip(ty[2][0]) if ty[2] else None
-                        npar = sd[2][0] if isinstance(sd, tuple) and sd[0] == "adt" and sd[2] else None
+                    sd = deep_strip(ty[2][0]) if ty[0] == "adt" and ty[2] else None
+                    npar = sd[2][0] if isinstance(sd, tuple) and sd[0] == "adt" and sd[2] else None
+                    # no list written: the path on which the bound list is None records 0 parameters
+                    none_list = any("bind_typed_parameter_list" in show(t_) and c_ == ("eq", 0) for t_, c_ in conds_of(p) if isinstance(t_, tuple) and t_[0] == "discr")
+                    zero = isinstance(npar, tuple) and deep_strip(npar) == ("c", deep_strip(npar)[1], 0) if isinstance(npar, tuple) and deep_strip(npar)[0] == "c" else False
+                    ok = ty[0] == "adt" and ty[1] == T + "Type::SubroutineDef" and ("return_signature" in s_ or "Type::Void" in s_) and ("typed_param_list" in s_ or (zero and none_list))
+                    if ok and not (zero and none_list):
                         o1, w1 = count_term_ok(prog, npar, "bind_typed_parameter_list") if npar is not None else (False, "num_params field not found")
                         if not o1:
                             ok = False
                             s_ = f"num_params is not the length of the bound parameter list: {w1}; " + s_
-                    R.ob("C09.4-subroutine-signature", "SubroutineDef{num_params <- typed params, return_type <- return signature | Void}", ok, s2s.at, s_[:260])
+                    def_rows.append((ok, s_[:260]))
+    R.ob("C09.4-subroutine-signature", "SubroutineDef{num_params <- typed params, return_type <- return signature | Void}", bool(def_rows) and all(o for o, _ in def_rows), s2s.at,
+         "; ".join(d for o, d in def_rows if not o)[:300] or f"{len(def_rows)} distinct recorded signatures: {def_rows[0][1][:160] if def_rows else ''}")
     # a qubit declaration records a register of the written length exactly when a length is written: the recorded
     # type is QubitArray(D1(w)) on the paths where designator_to_asg gave Some(w) and Qubit where it gave None, and
     # no other test (e.g. on the value of w) takes part
